@@ -108,9 +108,16 @@ func GenNoti(rng *simrt.Rand, u *gen.Universe, target string, tsLo, tsHi int64, 
 	}
 	kind := rng.Pick(50, 14, 12, 18, 3)
 	if len(rest) == 0 && kind != 2 {
-		kind = 2 // nothing left for a path: store as atomic container at the prefix
-		if len(n.Prefix) == 0 {
-			n.Prefix = full
+		// Nothing left for a path. Half of the time the leaf is named by the
+		// prefix alone (an update or a delete with an empty path of its own),
+		// otherwise it becomes an atomic container at the prefix.
+		if len(n.Prefix) > 0 && (kind == 0 || kind == 3) && rng.Chance(0.5) {
+			// keep kind: single update / delete with an empty path
+		} else {
+			kind = 2
+			if len(n.Prefix) == 0 {
+				n.Prefix = full
+			}
 		}
 	}
 	switch kind {
@@ -285,7 +292,11 @@ func (H) Generate(rng *simrt.Rand, prop, tier string) (any, simrt.Config) {
 		}
 	}
 	if prop == "C15" || prop == "C12" {
-		for i := 1 + rng.Intn(6); i > 0; i-- {
+		nref := 1 + rng.Intn(6)
+		if prop == "C15" && rng.Chance(0.5) {
+			nref = 6 + rng.Intn(12) // a refresher that keeps running next to the streams' lifecycle calls
+		}
+		for i := nref; i > 0; i-- {
 			if rng.Chance(0.7) {
 				sc.Refresh = append(sc.Refresh, Op{K: "meta"})
 			} else {
@@ -899,6 +910,7 @@ func (w *world) judge(x *common.Exec, final map[string]map[string]leafSnap, fina
 	sort.Slice(feed, func(i, j int) bool { return feed[i].stamp < feed[j].stamp })
 	nOps := 0
 	h := fnv.New64a()
+targets:
 	for i, tg := range sc.Targets {
 		m := cachemodel.NewTarget()
 		exists := true
@@ -956,13 +968,20 @@ func (w *world) judge(x *common.Exec, final map[string]map[string]leafSnap, fina
 					continue
 				}
 				clock := r.nows
-				if len(clock) > 1 {
-					clock = clock[:1]
+				if len(clock) > 1 && len(r.noti.GetUpdate())+len(r.noti.GetDelete()) <= 1 || r.noti.GetAtomic() && len(clock) > 1 {
+					clock = clock[:1] // one leaf, one future check: it used the first reading
 				}
+				// (a multi-update notification checks each update against its own
+				// reading of an advancing clock: the model gets all of them and treats
+				// verdicts that depend on which one was used as may, not must)
 				if len(clock) == 0 {
 					clock = w.clockRange(r.inv, r.ret)
 				}
 				exp := m.Apply(r.noti, sc.Opts, clock)
+				if exp.Ambiguous {
+					x.Probe("model-gave-up:future-verdict-of-a-multi-update-depends-on-the-clock-reading")
+					continue targets
+				}
 				x.Oblige(3)
 				okClass := false
 				for _, c := range exp.Classes {
